@@ -67,3 +67,19 @@ func init() {
 		},
 	}
 }
+
+func init() {
+	table["C03"] = propSpec{
+		Level: "exploration",
+		Rule:  "distinct_nontrivial = distinct (client skew, outcome), (gap since first acceptance, outcome), (k, interleaving) and (goroutines, salts, adds) classes observed on the real StreamServer / SaltPool",
+		Assumptions: append([]string{
+			"the timestamp rule is the integer-second comparison |ts - floor(now)| <= 30 (protocol and statement wording)",
+			"inside a synctest bubble the clock is constant while HandleStream computes, so the harness's time.Now() before a presentation is the server's now",
+		}, commonAssume...),
+		Parts: []partSpec{
+			{Name: "history", Flavour: "plain", TimeoutQ: m10, TimeoutT: m60},
+			{Name: "concurrent", Flavour: "race", TimeoutQ: m10, TimeoutT: m60},
+			{Name: "saltpool", Flavour: "race", TimeoutQ: m10, TimeoutT: m60},
+		},
+	}
+}
